@@ -1504,6 +1504,12 @@ func (mn mon) Run(sh drv.Shard, c *drv.Ctx) {
 		return
 	}
 	defer os.RemoveAll(root)
+	if runClaimedPlainProcess {
+		c.Violate("run-true-in-plain-process", map[string]string{"shard": sh.Name},
+			"daemon.Run() returns false in a process that was not re-executed as launcher or daemon (no ENV_DAEMON_NAME in its environment), so that the program goes on and can call Launch",
+			"daemon.Run() returned true in the harness process itself: a program following the documented 'if daemon.Run() { os.Exit(0) }' ends before it can call Launch")
+		return
+	}
 	for run := 0; run < a.Runs; run++ {
 		cs := genCase(a.Class, sh.Tier, sh.Seed, a.Part, run)
 		c.Progress(cs.Id, true)
@@ -1554,10 +1560,20 @@ func (mon) Finish(prop, tier string, mg *drv.Merged) (incon []string) {
 	return
 }
 
+// runClaimedPlainProcess: daemon.Run() returned true in this process although ENV_DAEMON_NAME is
+// not in its environment (see main).
+var runClaimedPlainProcess bool
+
 func main() {
 	// roles of glb's own protocol first: this binary is re-executed as launcher and as daemon
 	registerHandlers()
-	if daemon.Run() {
+	if _, reexec := os.LookupEnv("ENV_DAEMON_NAME"); !reexec && daemon.Run() {
+		// unreachable on the unchanged library: Run() claims a process that nobody re-executed
+		// as launcher or daemon. A program following the documented 'if daemon.Run() { os.Exit(0) }'
+		// would end here, before it could ever call Launch - and so would this harness, silently.
+		// Carry on instead and say so from inside the run.
+		runClaimedPlainProcess = true
+	} else if reexec && daemon.Run() {
 		// a program may do some clean-up here; schedules d-* / e-* make the launcher do so
 		if os.Getenv("ENV_DAEMON_FLAG") == "isLauncher" {
 			if ms, _ := strconv.Atoi(os.Getenv(envLinger)); ms > 0 {
